@@ -793,7 +793,7 @@ def _format_path(t_path, root=None):
             path_parts.append((True, []))
         # (a plain segment may itself be a list: runs of T steps are marked, not recognised by type)
         return 'Path(%s)' % ', '.join([_format_t(part, root if n == 0 else T)
-                                       if is_t_run else repr(part)
+                                       if is_t_run else bbrepr(part)
                                        for n, (is_t_run, part) in enumerate(path_parts)])
     return _format_t(cur_t_path, root)
 
